@@ -75,7 +75,7 @@ pub fn gen_decode_plan(r: &mut Rng, tier: Tier, sink_fault_rate: u32, profile: &
         FrontEnd::StreamOwned | FrontEnd::StreamBorrowed => gen_stream_program(r, window, max_ops),
         _ => vec![],
     };
-    let source = SourceScript { chunks: gen_chunks(r), eof_at: None, faults: vec![] };
+    let source = SourceScript { chunks: gen_chunks(r), eof_at: None, faults: vec![], pauses: vec![] };
     let trailing = match front {
         // decode_all requires an exact number of frames: no trailing bytes there (C10 covers trailing garbage)
         FrontEnd::DecodeAll | FrontEnd::DecodeAllToVec => vec![],
